@@ -107,13 +107,13 @@ def boot():
 def fp_env(mode):
     """'warn': numpy's default floating-point error handling and a warnings filter that lets every warning through (recorded, not printed)."""
     if mode != 'warn':
-        yield
+        yield None
         return
     import warnings
     import numpy as np
-    with np.errstate(divide='warn', over='warn', under='ignore', invalid='warn'), warnings.catch_warnings(record=True):
+    with np.errstate(divide='warn', over='warn', under='ignore', invalid='warn'), warnings.catch_warnings(record=True) as rec:
         warnings.simplefilter('always')
-        yield
+        yield rec
 
 
 def _enable_cache(disp):
